@@ -12,6 +12,7 @@ def run(ctx):
     ctx.rule("R-REARM", "every send session is eventually deleted or re-armed", floor=16)
     ctx.rule("R-WAKE", "state changes that request immediate action wake the job thread", floor=6)
     ctx.rule("R-PEER-255", "a frame from source address 255 cannot finish a broadcast session (its number would go to the wrong pool)", floor=6)
+    ctx.rule("R-STATE-OWN", "session tables, session-number pools and the CA list are created per stack object (not shared through a class attribute)", floor=8)
     from rules import robust as R
     for fd in (False, True):
         L = T.Layer(ctx, fd=fd)
@@ -20,6 +21,7 @@ def run(ctx):
         TM.rearm(ctx, L)
         TM.wake(ctx, L)
         R.bam_key_guard(ctx, L)
+        R.state_own(ctx, L)
         if fd:
             TM.pool_pair(ctx, L)
             TM.pool_owner(ctx, L)
